@@ -101,19 +101,23 @@ EXPECT_DOCS = {name: (rc, n) for name, _doc, rc, n in G.xml_documents()}
 by_script = {}     # case name -> script lines (filled by check)
 
 
-def xml_ok(line, n, has_tc=False):
+def xml_ok(line, n, has_tc=False, want_ref=None):
     """the XML round-trip clause on one 'xml ...' line of the harness: export succeeds, the returned length is
     strlen+1, the loaded list and refname are the exported ones, the file variant holds the same bytes as the
     buffer (without the NUL) and loads to the same list"""
     if line is None:
         return "XML export/load did not return"
     f = kv(line)
-    ref = G.hx(REFNAME)
+    ref = G.hx(REFNAME) if want_ref is None else want_ref
     if has_tc:
         return None if (f.get("export") == "-1" and f.get("fexport") == "-1") else "a list holding a TOO_COMPLEX entry was exported (doc: only lists without one may be)"
     if f.get("export") != "0":
         return "export_xmlbuffer failed"
     bad = []
+    if want_ref is not None and want_ref.startswith("@"):
+        ref = f.get("refin")                    # generated string: the harness prints what it passed
+    elif f.get("refin") != ref:
+        bad.append("harness passed another refname than the case asks for")
     if f.get("len") != f.get("strlen"):
         bad.append("returned buflen %s but strlen(buffer)+1 = %s" % (f.get("len"), f.get("strlen")))
     if f.get("load") != "0" or f.get("same") != "1" or f.get("n") != str(n) or f.get("ref") != ref:
@@ -131,6 +135,12 @@ def xml_ok(line, n, has_tc=False):
     return "; ".join(bad) if bad else None
 
 
+def case_refname(case):
+    """refname token of the case script (None: the harness default); NULL is '-', the empty string is 's'"""
+    r = next((l.split(" ", 1)[1].strip() for l in by_script.get(case, []) if l.startswith("refname ")), None)
+    return r
+
+
 def unsafe_for_libxml_import(case, dlines):
     """known finding xml-bytes-libxml-import: the list holds a NAME/INFO string that XML 1.0 / UTF-8 cannot carry and
     the libxml2 importer is in use"""
@@ -138,6 +148,9 @@ def unsafe_for_libxml_import(case, dlines):
     imp = (xb[2] if len(xb) > 2 else xb[1]) if xb else "1"
     if imp != "1":
         return False
+    r = case_refname(case)
+    if r and r.startswith("s") and G.xml_unsafe(bytes.fromhex(r[1:])):
+        return True
     for l in dlines:
         f = l.split()
         if len(f) >= 7 and f[0] == "D" and f[1] == "a" and f[4] in ("name", "info"):
@@ -191,7 +204,7 @@ def evaluate(case, clines, mlines):
     for xs in [c for c in csteps_all if c["kind"] == "xml"]:
         n = int(xs["lines"][0].split()[1])
         tc_in = any(l.startswith("D tc") for l in by_script.get(case, []))
-        why = xml_ok(next((l for l in xs["lines"] if l.startswith("xml ")), None), n, tc_in)
+        why = xml_ok(next((l for l in xs["lines"] if l.startswith("xml ")), None), n, tc_in, case_refname(case))
         if why and unsafe_for_libxml_import(case, by_script.get(case, [])) and "load=-1" in " ".join(xs["lines"]):
             viol.append(("xml-bytes-libxml-import", "list with a string XML 1.0/UTF-8 cannot carry (case %s): exported as is, the libxml2 importer rejects the document" % case))
         elif why:
@@ -289,7 +302,7 @@ def evaluate(case, clines, mlines):
                 if ap == "apply 0" and (ua != "unapply 0" or state(L, "P2") != stateA):
                     classify("apply REVERSE after apply gives '%s', state %s A" % (ua, "equal to" if state(L, "P2") == stateA else "different from"), "reverse")
                 xl = next((l for l in L if l.startswith("xml ")), None)
-                why = xml_ok(xl, n)
+                why = xml_ok(xl, n, False, case_refname(case))
                 if xl is None:
                     classify("XML export/load of the diff did not return", "xml-crash")
                 elif why and unsafe_for_libxml_import(case, [l for l in L if l.startswith("D a")]) and " load=-1 " in xl:
@@ -374,7 +387,7 @@ def check(run, replay=None):
         for l in outp.split("\n"):
             if l.startswith("xml export=0"):
                 base = int(kv(l)["len"]) - 100
-        for xc in G.xml_cases(rng, base, run.tier) + G.xmlload_cases() + G.bytes_cases():
+        for xc in G.xml_cases(rng, base, run.tier) + G.xmlload_cases() + G.bytes_cases() + G.refname_cases(base):
             cases.append((xc[0][5:], xc))
         # child lists of different length / content at one place, all four kinds, both directions
         stopos = G.shape_topos(C.REPO)
@@ -418,7 +431,7 @@ def check(run, replay=None):
         viol, diff = evaluate(name, cl, ml)
         res = [l for l in cl if KEEP.match(l)]
         nontriv = any(l.startswith("D ") for l in res)
-        kind = "bytes" if name.startswith("bytes-") else "shape" if name.startswith(("shape-", "filt-")) else "xmlload" if any(l.startswith("xmlload") for l in cl) else "misuse" if any(l.startswith("misuse") for l in cl) else "xml" if any(l.startswith("xmlhand") for l in cl) else ("hand" if any(l.startswith("hand") for l in res) else "pair")
+        kind = "refname" if name.startswith("ref-") else "bytes" if name.startswith("bytes-") else "shape" if name.startswith(("shape-", "filt-")) else "xmlload" if any(l.startswith("xmlload") for l in cl) else "misuse" if any(l.startswith("misuse") for l in cl) else "xml" if any(l.startswith("xmlhand") for l in cl) else ("hand" if any(l.startswith("hand") for l in res) else "pair")
         run.count("\n".join(res), nontrivial=nontriv, sample={"case": by_name.get(name, [])[:12], "impl": res[:6]}, kind=kind)
         for l in ml:
             if l.startswith("hyp A") or l.startswith("hypd") or l.startswith("hyph"):
